@@ -85,3 +85,13 @@ Proof.
   destruct (sae_escape s [] None [] I) as (l & _ & E).
   rewrite app_nil_r in E. rewrite E. reflexivity.
 Qed.
+
+(* the same with any delimiters: the parts of an interpolated string begin with a quote or a closing
+   brace and end with an opening brace or a quote *)
+Theorem string_escape_roundtrip_delim : forall x y s,
+  strip_and_escape (x :: escape_numbat_string s ++ [y]) = s.
+Proof.
+  intros x y s. unfold strip_and_escape. cbn [tl]. rewrite removelast_last.
+  destruct (sae_escape s [] None [] I) as (l & _ & E).
+  rewrite app_nil_r in E. rewrite E. reflexivity.
+Qed.
